@@ -239,5 +239,31 @@ def r8_reader_returns_the_text_as_stored(chk):
                  keep=lambda o: o.key.split('/')[-1] in ('binary-read', 'size-cap', 'same-path-stat-and-open'), floor=2)
 
 
+
+def r10_revision_texts_all_kept(chk):
+    """revision descriptions are texts of the module: one record per REVISION clause, none merged (shared with C03.R13)"""
+    from rules.C03 import r13_collectors
+    common.reuse(chk, r13_collectors, ('C03.R13',), 'C15.R10',
+                 'genRevisions / genTime collect element-wise into a list that is returned as it is: every REVISION clause '
+                 'keeps its own description (C03.R13)', floor=4)
+
+
+
+def r9_text_reaches_the_lexer_as_given(chk):
+    """quoted texts are intact only if parse() hands the lexer the text as given (shared with C02.R6)"""
+    from rules.C02 import r6_entry_point
+    r6_entry_point(chk, rule='C15.R9')
+
+
+
+def r11_texts_not_html_escaped(chk):
+    """texts reach the generated module as written: the Jinja environment must not auto-escape (shared with C04.R6)"""
+    from rules.C04 import r6_sibling_tails
+    common.reuse(chk, lambda c: r6_sibling_tails(c), ('C04.R6',), 'C15.R11',
+                 'both code generators build jinja2.Environment(loader=..., trim_blocks=True, lstrip_blocks=True) and '
+                 'nothing else: with autoescape every apostrophe, ampersand and angle bracket of a text comes out as '
+                 'an HTML entity (C04.R6)', keep=lambda o: 'jinja-environment' in o.key, floor=2)
+
+
 RULES = [r1_gated_stores, r2_switch_plumbing, r3_text_handlers, r4_literal_positions, r5_text_tokens_verbatim,
-         r6_text_field_provenance, r7_only_texts_are_gated, r8_reader_returns_the_text_as_stored]
+         r6_text_field_provenance, r7_only_texts_are_gated, r8_reader_returns_the_text_as_stored, r10_revision_texts_all_kept, r9_text_reaches_the_lexer_as_given, r11_texts_not_html_escaped]
